@@ -155,6 +155,51 @@ impl<const N: usize> Ex<N> {
                         self.fail(own, format!("size_hint() = {:?} but {} elements are not yet produced", s, hi - lo));
                     }
                 }
+                b't' | b'T' | b'o' | b'u' | b'U' | b'O' => {
+                    // nth / nth_back: skip k elements from that end, then yield one
+                    let k = match w {
+                        b't' | b'u' => 1usize,
+                        b'o' | b'O' => 0,
+                        _ => usize::MAX,
+                    };
+                    let front = matches!(w, b't' | b'T' | b'o');
+                    let r = window(|| if front { it.nth(k) } else { it.nth_back(k) });
+                    self.allocs += crate::alloc::take_op_allocs();
+                    let Some(got) = self.settle(r, false, own) else { break };
+                    let skipped = k.min(hi - lo);
+                    let want = if front {
+                        lo += skipped;
+                        if lo < hi {
+                            lo += 1;
+                            Some(lo - 1)
+                        } else {
+                            None
+                        }
+                    } else {
+                        hi -= skipped;
+                        if lo < hi {
+                            hi -= 1;
+                            Some(hi)
+                        } else {
+                            None
+                        }
+                    };
+                    let name = if front { "nth" } else { "nth_back" };
+                    match (got, want) {
+                        (None, None) => {
+                            let _ = write!(self.trace.line(), " {}-", w as char);
+                        }
+                        (Some(item), p) => {
+                            if p.is_none() {
+                                self.fail(own, format!("{name}({k}) yielded an item beyond the selected range"));
+                            }
+                            on_item(self, item, p);
+                        }
+                        (None, Some(p)) => {
+                            self.fail(own, format!("{name}({k}) returned None but position {} of the selection (id={}) should be produced", p, exp[p].0));
+                        }
+                    }
+                }
                 other => extra(self, it, other, lo, hi),
             }
         }
